@@ -429,6 +429,10 @@ Fixpoint type_syntax_ok (t : gotype) : bool :=
   | _ => true
   end.
 
+Definition program_syntax_ok (p : program) : bool :=
+  forallb (fun e : name * list (name * name) => negb (go_keyword (fst e))) (p_enums p) &&
+  forallb (fun dfn => type_syntax_ok (td_type dfn)) (p_defs p).
+
 Section Generate.
   Variable Q : quirks.
   Variable S : schema.
@@ -458,8 +462,9 @@ Section Generate.
     end.
 
   (** [valid]: the verdict of graphql.ParseAndValidate on the document (the validator is not this
-      property's code; its reference is [doc_valid] in the Spec) *)
-  Definition generate (valid : bool) (d : document) : gen_result :=
+      property's code; its reference is [doc_valid] in the Spec).  [generate_raw] is Generate up to
+      (not including) format.Source. *)
+  Definition generate_raw (valid : bool) (d : document) : gen_result :=
     if negb valid then GRejected
     else
       let fragTypes := map (fun f => (fr_name f, fr_cond f)) (d_frags d) in
@@ -467,13 +472,16 @@ Section Generate.
                          {| g_enums := []; g_count := 0; g_json := false |} [] false with
       | Ok (st, out, errored) =>
           if errored then GError
-          else
-            let p := {| p_enums := g_enums st; p_defs := out; p_json := g_json st |} in
-            if forallb (fun e => negb (go_keyword (fst e))) (p_enums p) &&
-               forallb (fun dfn => type_syntax_ok (td_type dfn)) (p_defs p)
-            then GOk p else GError                                      (* format.Source fails *)
+          else GOk {| p_enums := g_enums st; p_defs := out; p_json := g_json st |}
       | Err => GError
       | Panic => GPanic
       | OutOfFuel => GOutOfFuel
       end.
+
+  (** format.Source fails when the text does not parse *)
+  Definition generate (valid : bool) (d : document) : gen_result :=
+    match generate_raw valid d with
+    | GOk p => if program_syntax_ok p then GOk p else GError
+    | r => r
+    end.
 End Generate.
